@@ -3,7 +3,7 @@
 From Coq Require Import List ZArith Bool Reals.
 Import ListNotations.
 From FV.C20 Require Import Model ModelReindex ProofsCanon ProofsMerge ProofsVol ProofsTransfer
-  ProofsCheck ProofsReindex ProofsExtra.
+  ProofsCheck ProofsReindex ProofsExtra ProofsReindexVol.
 
 (* ---- merge step (merge_polyhedrons on one connected group) -------------
    hypothesis wf_poly: faces have >= 3 pairwise distinct nodes and every
@@ -103,6 +103,15 @@ Theorem C20_reindex_injective : forall (ps : list poly) (conv : list Z),
   new_id (assign (used_b ps) (zrange (Z.of_nat (length conv))) 0) u =
   new_id (assign (used_b ps) (zrange (Z.of_nat (length conv))) 0) v -> u = v.
 Proof. exact reindex_injective. Qed.
+
+(* no vertices merged (node_conv is still the identity 0..n-1): the renumbered
+   faces with the node table recomputed by recalc_node_pos have the volume of
+   the input, for every node placement *)
+Theorem C20_reindex_volume_id : forall (ps : list poly) (n : nat) (pos : Z -> V3 R),
+  (forall v, In v (all_nodes ps) -> (0 <= v < Z.of_nat n)%Z) ->
+  let r := reindex ps (zrange (Z.of_nat n)) in
+  total_vol ROps (recalc_pos ROps pos (r_conv r)) (r_faces r) = total_vol ROps pos ps.
+Proof. intros ps n pos H. exact (reindex_volume_id ps n H pos). Qed.
 
 Theorem C20_closed_rename : forall phi p,
   (forall u v, In u (pnodes p) -> In v (pnodes p) -> phi u = phi v -> u = v) ->
